@@ -1,8 +1,197 @@
-import Emboss.Model.Fmt
+/-
+C11 — The formatter preserves meaning, is idempotent, and never fails on valid input.
+
+Property theorems only.  Model: Emboss/Model/Fmt.lean (format_emb.py + the fold of
+parser_util.transform_parse_tree); table: Emboss/Generated/FmtTable.lean (regenerated
+from module_ir.PRODUCTIONS and format_emb._formatters on every run); spec:
+Emboss/Spec/Fmt.lean; lemmas: Emboss/Lemmas/Fmt*.lean.
+
+What is *not* a theorem here (decided by the correspondence + oracle on the real code,
+and labelled so in the manifest): fmt(fmt t) = fmt t, and that the formatted text
+re-tokenizes to the same tokens (needs tokenizer ∘ parser ∘ render as one object).
+-/
+import Emboss.Lemmas.FmtSanity
 namespace Emboss.Fmt
 open Emboss.Generated.FmtTable
 
-/-- placeholder -/
-theorem C11_table_resolves : formatters.all (fun e => (resolve e).isSome) = true := by decide +kernel
+/-! ## The regenerated table
+
+`tableTyped formatters` (Spec/Fmt.lean) says, over the *whole* regenerated registry:
+every handler name is known to the model and registered with the calling convention it
+declares (`_formats` vs `_formats_with_config`); at the kinds of its production's
+right-hand side every handler is typed and yields the kind of the left-hand side; every
+argument a handler ignores is a layout terminal; no production rewrites a layout terminal.
+`tableMatchesGrammar` is `_check_productions` (the registered productions are pairwise
+distinct and are exactly `module_ir.PRODUCTIONS`).
+
+Both are *decidable and executable*; deciding them in the kernel costs minutes (≈ 10⁵
+string comparisons; kernel `String` equality re-encodes literals), so — as DESIGN §2
+allows for tables that are not small — the theorems below take `tableTyped formatters`
+as a hypothesis and every run evaluates it with the compiled checker (driver op
+`TABLE`); a `false` there re-opens the obligation.  The cheap part (all handler names
+resolve, with the right calling convention) is also decided in the kernel. -/
+
+/-- Tie T (kernel part): every registered handler is one the model knows, registered
+through the decorator that passes the arguments it declares. -/
+theorem C11_table_resolves :
+    formatters.all (fun e => (resolve e).isSome) = true ∧ kindOf startSymbol = .str := by
+  decide +kernel
+
+/-! ## Totality -/
+
+/-- For every parse tree over the grammar (`wf`: children match the production, tokens
+are terminals, no comment after documentation on a doc line — which the tokenizer
+guarantees — ) the fold is defined at every node: the handler of every production
+exists, takes the number and kinds of arguments it is given, and none of the modelled
+`assert`s (`not comment`, `len(row_types) < 3`, `len(row.columns) < 2`, non-empty `if`
+body) fails; the module handler returns a text.
+
+Hypothesis `layoutBlank` (Indent/Dedent/newline tokens carry only blanks, true of every
+token stream of the tokenizer) is an artefact of proving totality and content in one
+induction; totality itself does not depend on token texts. -/
+theorem C11_total (ht : tableTyped formatters = true) (iw : Nat) (t : Tree)
+    (hw : wf formatters t = true) (hl : layoutBlank t = true)
+    (hroot : rootSym formatters t = startSymbol) :
+    ∃ out, formatTree iw t = some (.str out) := by
+  obtain ⟨v, hv, hk, _⟩ := fold_ok formatters iw ht t hw hl
+  rw [hroot, C11_table_resolves.2] at hk
+  obtain ⟨s, rfl⟩ := hk
+  exact ⟨s, hv⟩
+
+/-- The same for every subtree, with the kind of value it yields. -/
+theorem C11_total_subtree (ht : tableTyped formatters = true) (iw : Nat) (t : Tree)
+    (hw : wf formatters t = true) (hl : layoutBlank t = true) :
+    ∃ v, fold formatters iw t = some v ∧ HasKind v (kindOf (rootSym formatters t)) := by
+  obtain ⟨v, hv, hk, _⟩ := fold_ok formatters iw ht t hw hl
+  exact ⟨v, hv, hk⟩
+
+/-! ## Token preservation -/
+
+/-- The formatted text, with every blank character (blank, tab, newline, …) erased,
+is the concatenation of the blank-erased texts of the tree's non-layout leaves, in
+order: no token is dropped, duplicated, reordered or altered, in any production, at
+any indent width; trailing blanks of comments/documentation may go (they are blanks).
+
+(Stated on characters, not on token boundaries: that two adjacent tokens stay two
+tokens is `C11_render_separable_partial` + the correspondence.) -/
+theorem C11_tokens_preserved (ht : tableTyped formatters = true) (iw : Nat) (t : Tree)
+    (hw : wf formatters t = true)
+    (hl : layoutBlank t = true) (hroot : rootSym formatters t = startSymbol) :
+    ∃ out, formatTree iw t = some (.str out) ∧
+      despace out = despace (contentLeaves t).flatten := by
+  obtain ⟨v, hv, hk, hc⟩ := fold_ok formatters iw ht t hw hl
+  rw [hroot, C11_table_resolves.2] at hk
+  obtain ⟨s, rfl⟩ := hk
+  exact ⟨s, hv, by rw [← leaves_content_eq t hl]; exact hc⟩
+
+/-! Non-vacuity: the parse tree of "-- hi  \n# c\n" (a documentation line with trailing
+blanks followed by a comment line), built by looking the productions up in the live
+table; it is well-formed, and the model formats it to "-- hi\n\n# c\n"?  No: the
+comment line belongs to the doc line's `eol`, so the text is "-- hi\n# c\n". -/
+
+def ix (lhs : String) (rhs : List String) : Nat :=
+  formatters.findIdx (fun e => e.1 == lhs && e.2.1 == rhs)
+
+def exTree : Tree :=
+  .node (ix "module" ["comment-line*", "doc-line*", "import-line*", "attribute-line*", "type-definition*"]) [
+    .node (ix "comment-line*" []) [],
+    .node (ix "doc-line*" ["doc-line", "doc-line*"]) [
+      .node (ix "doc-line" ["doc", "Comment?", "eol"]) [
+        .node (ix "doc" ["Documentation"]) [.tok "Documentation" "-- hi  ".toList],
+        .node (ix "Comment?" []) [],
+        .node (ix "eol" ["\"\\n\"", "comment-line*"]) [
+          .tok "\"\\n\"" "\n".toList,
+          .node (ix "comment-line*" ["comment-line", "comment-line*"]) [
+            .node (ix "comment-line" ["Comment?", "\"\\n\""]) [
+              .node (ix "Comment?" ["Comment"]) [.tok "Comment" "# c".toList],
+              .tok "\"\\n\"" "\n".toList],
+            .node (ix "comment-line*" []) []]]],
+      .node (ix "doc-line*" []) []],
+    .node (ix "import-line*" []) [],
+    .node (ix "attribute-line*" []) [],
+    .node (ix "type-definition*" []) []]
+
+example : wf formatters exTree = true ∧ layoutBlank exTree = true ∧
+    rootSym formatters exTree = startSymbol ∧
+    formatTree 3 exTree = some (.str "-- hi\n# c\n".toList) ∧
+    contentLeaves exTree = ["-- hi  ".toList, "# c".toList] := by
+  decide +kernel
+
+/-! ## The self-check -/
+
+/-- `sanity_check_format_result` (its comparison loop over the collapsed streams)
+returns `[]` iff the original stream agrees with a *prefix* of the formatted stream.
+Full statement wanted: `… = .ok ↔ StreamsAgree o f`; it is false (next theorem): the
+loop never looks at `len(f_tokens)`. -/
+theorem C11_sanity_agrees_partial (o f : List Tok) :
+    sanityLoop 0 o f = .ok ↔ ∃ f1 f2, f = f1 ++ f2 ∧ StreamsAgree o f1 :=
+  sanityLoop_ok_iff o f 0
+
+/-- When the formatted stream is not longer than the original one (which
+`C11_tokens_preserved` + the correspondence give for the real formatter output), the
+self-check returns `[]` exactly when the streams agree. -/
+theorem C11_sanity_agrees_of_length (o f : List Tok) (hlen : f.length ≤ o.length) :
+    sanityLoop 0 o f = .ok ↔ StreamsAgree o f := by
+  rw [C11_sanity_agrees_partial]
+  constructor
+  · rintro ⟨f1, f2, rfl, h⟩
+    have := h.length_eq
+    have : f2 = [] := by
+      cases f2 with
+      | nil => rfl
+      | cons x xs => simp at hlen; omega
+    subst this; simpa using h
+  · intro h; exact ⟨f, [], by simp, h⟩
+
+def tDoc : Tok := ⟨"Documentation", "-- doc".toList⟩
+def tNl : Tok := ⟨nlSym, "\n".toList⟩
+def tExtra : Tok := ⟨"Documentation", "-- extra".toList⟩
+
+/-- Counterexample to the full statement (finding `sanity-check-ignores-length`):
+formatted "-- doc\n-- extra\n" against original "-- doc\n" is accepted although the streams
+differ; and with the texts swapped the loop indexes past the end (`IndexError`). -/
+theorem C11_sanity_agrees_counterexample :
+    sanityCheck [tDoc, tNl, tExtra, tNl] [tDoc, tNl] = .ok ∧
+    ¬ StreamsAgree (collapseNewlines [tDoc, tNl]) (collapseNewlines [tDoc, tNl, tExtra, tNl]) ∧
+    sanityCheck [tDoc, tNl] [tDoc, tNl, tExtra, tNl] = .indexError 2 := by
+  refine ⟨by decide, ?_, by decide⟩
+  intro h
+  have := h.length_eq
+  revert this
+  decide
+
+/-- Non-vacuity of `C11_sanity_agrees_of_length`: extra newlines and trailing blanks. -/
+example : sanityCheck [tNl, ⟨"Documentation", "-- doc  ".toList⟩, tNl, tNl] [tDoc, tNl] = .ok := by decide
+
+/-! ## Known defects, on the model -/
+
+/-- Finding `minus-minus-juxtaposed`: the handler registered for
+`additive-expression-right -> additive-operator times-expression` and for
+`additive-expression -> times-expression additive-expression-right*` is `_concatenate`;
+on `x`, `-`, `-5` it yields `x--5`, whose tail the tokenizer reads as documentation. -/
+theorem C11_render_separable_counterexample (iw : Nat) :
+    Handler.run iw .concatenate [.str "-".toList, .str "-5".toList] = some (.str "--5".toList) ∧
+    Handler.run iw .concatenate [.str "x".toList, .str "--5".toList] = some (.str "x--5".toList) := by
+  constructor <;> rfl
+
+def evBlock (nm val doc cm : String) : Block :=
+  { pre := [],
+    header := { name := RowName.enumValue,
+                columns := [nm.toList, "=".toList, val.toList, [], doc.toList, cm.toList],
+                indent := 0 },
+    body := [] }
+
+/-- Finding `inline-doc-trailing-blanks-widen-column`: the documentation column is as
+wide as the untrimmed token, so the trailing comment of the *other* row lands at a
+column that depends on blanks the rendering then strips: after one formatting pass the
+blanks are gone and a second pass moves the comment (13 → 10 blanks here). -/
+theorem C11_idempotence_counterexample :
+    (columnize [evBlock "AA" "1" "-- abc   " "", evBlock "BB" "2" "" "# c"] 2 1).map
+        (fun s => s.map (fun l => l.map (fun r => r.columns.map String.ofList))) =
+      some [[["AA = 1  -- abc"]], [["BB = 2             # c"]]] ∧
+    (columnize [evBlock "AA" "1" "-- abc" "", evBlock "BB" "2" "" "# c"] 2 1).map
+        (fun s => s.map (fun l => l.map (fun r => r.columns.map String.ofList))) =
+      some [[["AA = 1  -- abc"]], [["BB = 2          # c"]]] := by
+  decide +kernel
 
 end Emboss.Fmt
